@@ -36,6 +36,7 @@ type Solver struct {
 	hist      []string
 	slowN     int
 	base      []string
+	branchTimeout int
 	depth     int
 	replaying bool
 	Retries   int
@@ -290,6 +291,17 @@ func (s *Solver) classify(lines []string) string {
 // Check asks whether the current assertions plus extra are satisfiable. The incremental core of z3 is
 // tried first under a short timeout; if it gives up, the same problem is re-asked from scratch (reset +
 // replay of the base assertions), where z3's full preprocessing pipeline applies.
+// CheckBranch: feasibility of a branch. "unknown" keeps the branch (sound), so a short budget is enough.
+func (s *Solver) CheckBranch(extra *Term) string {
+	full := s.timeout
+	if s.branchTimeout > 0 && s.branchTimeout < full {
+		s.timeout = s.branchTimeout
+	}
+	r := s.Check(extra)
+	s.timeout = full
+	return r
+}
+
 func (s *Solver) Check(extra *Term) string {
 	t0 := time.Now()
 	if extra != nil {
@@ -297,8 +309,10 @@ func (s *Solver) Check(extra *Term) string {
 		s.lastQuery = extra.SMT()
 	}
 	quick := s.timeout
-	if s.kind != "cvc5" && quick > 1500 {
-		quick = 1500
+	if s.kind != "cvc5" {
+		if quick > 1500 {
+			quick = 1500
+		}
 		s.send(fmt.Sprintf("(set-option :timeout %d)", quick))
 	}
 	if extra != nil {
